@@ -124,6 +124,7 @@ EXPORT errno_t _strerror_s_chk(char *dest, rsize_t dmax, errno_t errnum,
 #endif
         strcat_s(dest, dmax, "...");
     } else {
+        *dest = '\0';
         invoke_safe_str_constraint_handler("strerror_s: dmax is too small",
                                            dest, ESLEMIN);
         return ESLEMIN;
